@@ -102,6 +102,7 @@ Definition has_error (t : list item) : bool :=
   existsb (fun e => match e with EError => true | _ => false end) (events t).
 Definition req_target (r : req) : option id :=
   match r with
+  | RNsCreate i                    (* the inventory task's create of the inventory namespace: seed C11f *)
   | RCreate i _ | RPatch i _ _ | RUpdate i | RDelete i _ _ => Some i
   | _ => None
   end.
@@ -710,6 +711,18 @@ Definition mon_all_ext (sc : scenario) (c0 : cluster) (out : outcome) : list boo
    whose CRD failed to apply ends in ApplyFailed(unknown type) before any filter runs).
    The property monitors that only read the trace are evaluated on the implementation's
    own trace; agreement with the model is not claimed for these cases. *)
+Fixpoint mon_runs (mon : scenario -> cluster -> outcome -> bool) (c : cluster)
+         (runs : list (scenario * outcome)) : bool :=
+  match runs with
+  | [] => true
+  | (sc, obs) :: rest => mon sc c obs && mon_runs mon (out_final obs) rest
+  end.
+(* dry-run histories whose dependencies are spelled as apply-time mutations: the source of a
+   substitution may not exist (nothing was created), the mutator fails and the object is
+   reported failed without a request; the model has no such path, mon_C10 reads the
+   scenario options, the initial and final cluster and the trace only *)
+Definition check_C10_monly (h : history) : nat :=
+  let '(c0, runs) := h in code true (mon_runs mon_C10 c0 runs).
 Definition check_C13_monly (h : history) : nat :=
   let '(c0, runs) := h in
   code true (forallb (fun x => mon_C13_core (out_trace (snd x)) && mon_C06p (fst x) c0 (snd x)) runs).
